@@ -209,7 +209,9 @@ NOWS = [0, 1, 10**9, 2**31, 2**40, 10**9 + 0.75, 1700000000.25, 0.5]   # a calle
 LEEWAYS = [0, 1, 60, 10**6]
 VALUES = [None, True, False, 0, 1, -1, 7, 1.5, "", "a", "joe", "https://example.com", ["a"], ["a", "b"], [], {"a": 1}, {}, [1], 2**70,
           # what json.loads hands over for the legal JSON texts "\ud83d" and "a\udc80": str values with a lone surrogate
-          "\ud83d", "a\udc80", ["\ud83d", "a"], "é€\U0001F600", "a\x00"]
+          "\ud83d", "a\udc80", ["\ud83d", "a"], "é€\U0001F600", "a\x00",
+          # JSON integers are unbounded (json.loads yields them): far beyond what a float holds
+          2 ** 1024, -2 ** 1024, 10 ** 400, -10 ** 400, 2 ** 1023, 1e308, -1e308, "1700000000", "12.5"]
 NAMES = ["iss", "sub", "aud", "exp", "nbf", "iat", "jti", "scope", "x", "validate", "options", "now", "leeway", "check_value"]
 
 
@@ -244,7 +246,9 @@ def run_shard(ctx):
     flags = list(itertools.product((None, True, False), repeat=2))  # essential, allow_blank
     reqs = [(), ("value",), ("values",), ("value", "values")]
     k = 0
-    for name in ("iss", "sub", "aud", "jti", "x", "validate"):
+    # private claim names that are also words of this API: a claim is a rule of its own only if the statement says so (exp, nbf, iat, aud)
+    api_words = sorted({a[len("validate_"):] for a in dir(j.jwt.JWTClaimsRegistry) if a.startswith("validate_")} - {"exp", "nbf", "iat", "aud"})
+    for name in ["iss", "sub", "aud", "jti", "x", "validate"] + api_words + ["value", "values", "claim", "claims", "options", "essential", "now_", "leeway_", "check_value", "dict"]:
         for (ess, blank) in flags:
             for req in reqs:
                 for rv in ("a", 7, ["a"], True, 1, 0, False, 1.0):
